@@ -19,6 +19,14 @@ def mutate(doc, arch, rng):
         return bytes(rng.randrange(256) for _ in range(rng.randrange(1, 8))), 'random-from-empty'
     k = rng.randrange(12)
     n = len(doc)
+    if arch == 'msgpack' and rng.random() < 0.08:
+        # replace a short string (usually a map key) by an item of another kind: non-finite floats, zeros, nil, bool, bin, containers, extreme integers
+        cands = [i for i, b in enumerate(doc) if 0xa1 <= b <= 0xaf and i + 1 + (b & 0x1f) <= n]
+        if cands:
+            p = rng.choice(cands)
+            alt = rng.choice([b'\xcb\x7f\xf8\x00\x00\x00\x00\x00\x00', b'\xca\x7f\xc0\x00\x00', b'\xcb\x7f\xf0\x00\x00\x00\x00\x00\x00', b'\xcb\x80\x00\x00\x00\x00\x00\x00\x00', b'\xca\x00\x00\x00\x00',
+                              b'\xc0', b'\xc3', b'\xc4\x01\x00', b'\x91\x01', b'\x80', b'\xd6\xff\x00\x00\x00\x00', b'\xcf\xff\xff\xff\xff\xff\xff\xff\xff', b'\xd3\x80\x00\x00\x00\x00\x00\x00\x00', b'\xa0'])
+            return doc[:p] + alt + doc[p + 1 + (doc[p] & 0x1f):], 'key-kind-replace'
     if k == 0:
         return doc[:rng.randrange(n)], 'truncate'
     if k == 1:
